@@ -4,6 +4,7 @@
 From ClapModel Require Import Base.Bytes Base.Machine.
 From ClapModel Require Import Parse.Cmd Parse.Build Parse.Errors Parse.Parser.
 From ClapModel Require Import Reentrancy.ReentrancyModel Reentrancy.ReentrancyProofs Reentrancy.ReentrancyParse.
+From ClapModel Require Import Reentrancy.ReentrancyDym.
 From Coq Require Import List.
 From RecordUpdate Require Import RecordSet.
 Import RecordSetNotations ListNotations.
@@ -127,3 +128,63 @@ Theorem C11_history_independence : forall h b c argv,
   /\ err_of (fst (fst (parse_mut (run c h) argv))) = err_of (fst (fst (parse_mut c argv))).
 Proof. exact history_independence. Qed.
 Print Assumptions C11_history_independence.
+
+(** ---- third pass (1a): the failing parse that mutates.  [parse_mut_dym fires] = the parse plus, when the
+    parser result is an UnknownArgument error and [fires] (strsim::jaro found no similar long flag: not
+    modelled, both values covered), [_build_self] on every subcommand of the deepest level reached
+    ([Parser::did_you_mean_error] -> [suggestions::did_you_mean_flag]). ---- *)
+
+(** on the path of the parse itself the guards of the modelled mutation never block: it reaches the
+    failing level and builds each of its subcommands (built, not named) *)
+Theorem C11_dym_reaches_failing_level : forall path root c,
+  s_built (c_set c) = true -> (root = true \/ is_some (c_bin_name c) = true) ->
+  sugg_build_at root (touch c path) path = touch_build c path.
+Proof. exact sugg_after_touch. Qed.
+Print Assumptions C11_dym_reaches_failing_level.
+
+Theorem C11_dym_state : forall c argv,
+  unknown_arg_result (parse_result c argv) = true ->
+  snd (parse_mut_dym true c argv)
+  = touch_build (build_self (fst (set_bin c argv))) (trace_path (snd (fst (parse_mut c argv)))).
+Proof. exact dym_state. Qed.
+Print Assumptions C11_dym_state.
+
+Theorem C11_dym_level_built : forall path c k,
+  node_at (touch_build c path) path = Some k -> Forall (fun s => s_built (c_set s) = true) (c_subs k).
+Proof. exact touch_build_level_built. Qed.
+Print Assumptions C11_dym_level_built.
+
+(** the mutating parse preserves the normal form, hence every history that contains such parses *)
+Theorem C11_dym_preserves_normal_form : forall n b c x,
+  good_name b = true -> xop_under b c x = true -> xis_build x = false ->
+  norm n b (fst (xstep c x)) = norm n b c.
+Proof. exact xstep_normal_form. Qed.
+Print Assumptions C11_dym_preserves_normal_form.
+
+Theorem C11_history_normal_form_dym : forall h n b c,
+  good_name b = true -> xhist_ok b c h = true -> norm n b (xrun c h) = norm n b c.
+Proof. exact xhistory_normal_form. Qed.
+Print Assumptions C11_history_normal_form_dym.
+
+(** two commands with the same normal form to every depth: every level the parse visits (parser levels
+    and the levels of the `help <path>` walk) has the same own definition -- arguments including the
+    inherited global arguments, in order; settings; version; bin / display name *)
+Theorem C11_visited_levels_normal_form : forall fuel c1 c2 toks st,
+  (forall n, norm_children n c1 = norm_children n c2) ->
+  map visit_own (parse_trace fuel c1 toks st) = map visit_own (parse_trace fuel c2 toks st).
+Proof. exact trace_own_agree. Qed.
+Print Assumptions C11_visited_levels_normal_form.
+
+(** history independence for histories that contain FAILING parses which build subcommands behind the
+    caller's back: the later parse still gets the fresh parser result, names the subcommands
+    ([_build_subcommand] must overwrite bin_name / usage_name of a subcommand that is already built) and
+    finds the global arguments at every level it visits *)
+Theorem C11_history_independence_dym : forall h b c argv,
+  good_name b = true -> xhist_ok b c h = true ->
+  argv_under b (xrun c h) argv = true -> argv_under b c argv = true ->
+  parse_result (xrun c h) argv = parse_result c argv
+  /\ parse_names (xrun c h) argv = parse_names c argv
+  /\ err_of (fst (fst (parse_mut (xrun c h) argv))) = err_of (fst (fst (parse_mut c argv)))
+  /\ parse_levels (xrun c h) argv = parse_levels c argv.
+Proof. exact history_independence_dym. Qed.
+Print Assumptions C11_history_independence_dym.
